@@ -103,7 +103,53 @@ func etcdConditionalWrites(m *Module, r *Report, rule string, fn *ssa.Function, 
 				}
 			}
 			if hasIf {
-				okTxn = true
+				// every comparison handed to If must be able to detect a concurrent update of the key:
+				// ModRevision / Version / Value of the key, or CreateRevision == 0 (key absent).
+				// CreateRevision == <non-zero> never changes on update and guards nothing.
+				var ifCall *ssa.Call
+				backSlice(recv, false, func(x ssa.Value) {
+					if c3, ok := x.(*ssa.Call); ok && strings.HasSuffix(calleeName(&c3.Call), "Txn).If") {
+						ifCall = c3
+					}
+				})
+				if rc, ok := recv.(*ssa.Call); ok && strings.HasSuffix(calleeName(&rc.Call), "Txn).If") {
+					ifCall = rc
+				}
+				weak := ""
+				nCmp := 0
+				if ifCall != nil {
+					for _, a := range ifCall.Call.Args {
+						backSlice(a, false, func(x ssa.Value) {
+							cmp, ok := x.(*ssa.Call)
+							if !ok || !strings.HasSuffix(calleeName(&cmp.Call), "client/v3.Compare") {
+								return
+							}
+							nCmp++
+							tgt := callOrigin(cmp.Call.Args[0])
+							tn := ""
+							if tgt != nil {
+								tn = calleeName(&tgt.Call)
+							}
+							switch {
+							case strings.HasSuffix(tn, "client/v3.ModRevision"), strings.HasSuffix(tn, "client/v3.Version"), strings.HasSuffix(tn, "client/v3.Value"):
+							case strings.HasSuffix(tn, "client/v3.CreateRevision"):
+								if k, okc := constInt(cmp.Call.Args[2]); !okc || k != 0 {
+									weak = "If compares CreateRevision(key) with a non-zero value at " + m.Pos(cmp.Pos()) + ": it does not change when the key is updated, so the swap is unconditional for existing keys"
+								}
+							default:
+								weak = "If compares " + tn + " at " + m.Pos(cmp.Pos()) + ", which does not detect concurrent updates"
+							}
+						})
+					}
+				}
+				if nCmp == 0 {
+					weak = "no clientv3.Compare reaches Txn.If"
+				}
+				if weak == "" {
+					okTxn = true
+				} else {
+					why = weak
+				}
 			} else {
 				why = "Txn has no If(...) comparison"
 			}
